@@ -487,6 +487,11 @@ def determinism_groups(rng, quick):
     d2 = GS.sample_code_like(rng, 7000)
     chains = [None, [["lzma2", dict(preset=0, dict_size=1 << 16)]],
               [["x86", {}], ["delta", dict(dist=2)], ["lzma2", dict(preset=1, dict_size=1 << 16, lc=2, lp=1, pb=1)]]]
+    chains.append([["delta", dict(dist=rng.choice((1, 4)))], ["lzma2", dict(preset=0, dict_size=1 << 16)]])
+    # block sizes on both sides of the places where the Block Header size changes (sizes are VLIs: 128, 16384)
+    BS = [64, 100, 127, 1000, 2048, 4096, 16000, 20000]
+    rng.shuffle(BS)
+    hist_data = text(rng, 30000)
     mode = rng.choice(("fast", "normal")); mf = rng.choice(("bt2", "bt3", "bt4", "hc3", "hc4"))
     chains.append([["lzma2", dict(preset=0, dict_size=1 << 16, mode=MODES["fast"], mf=MFS[rng.choice(("bt2", "bt3", "bt4"))], nice_len=273)]])
     chains.append([["lzma2", dict(preset=0, dict_size=1 << 16, mode=MODES[mode], mf=MFS[mf], nice_len=rng.choice((8, 64, 273)))]])
@@ -505,16 +510,54 @@ def determinism_groups(rng, quick):
                     if ch is not None and rng.random() < 0.5:
                         cfg["args"]["via_string"] = True
                     runs.append(cfg)
-            args = dict(block_size=rng.choice([2048, 4096]), preset=0, check=4)
+            args = dict(block_size=BS[(ci + di) % len(BS)], preset=0, check=4)
             if ch is not None:
                 args["filters"] = ch
+            # histories: the same lzma_stream was used before (other block size / preset / thread count / another kind
+            # of coder) and is re-initialised without lzma_end(); the bytes must equal those of a fresh handle
+            for k in range(2 if quick else 5):
+                pa = dict(args, block_size=rng.choice((1 << 15, 1 << 16, 1 << 20)), threads=rng.randint(1, 4), preset=rng.choice((0, 1)))
+                prior = [["stream_encoder_mt", pa, hist_data.hex()]]
+                if rng.random() < 0.3:
+                    prior.insert(0, ["stream_decoder", dict(flags=0), b"\xfd7zXZ\x00\x00".hex()])
+                runs.append(dict(args=dict(threads=rng.randint(1, 4), timeout=rng.choice((0, 100))), plan=rng.choice(plans), prior=prior))
             G.append(dict(entry="stream_encoder_mt", cls="group:mt:%d:%d" % (di, ci), args=args, data=d, runs=runs))
     # single-threaded encoders: slicings x structure/text form
     for entry, args in (("stream_encoder", dict(filters=chains[2], check=1)), ("raw_encoder", dict(filters=chains[2])),
                         ("raw_encoder", dict(filters=[["arm64", dict(start_offset=16)], ["lzma2", dict(preset=0, dict_size=4096, nice_len=273, depth=7)]])),
                         ("block_encoder", dict(filters=chains[1], check=10))):
         runs = [dict(args={}, plan=p) for p in plans] + [dict(args=dict(via_string=True), plan=p) for p in plans[:2]]
+        other = dict(args)
+        if "filters" in other:
+            other["filters"] = [["lzma2", dict(preset=rng.choice((0, 3, 6)), dict_size=1 << 20)]]
+        runs.append(dict(args={}, plan=plans[0], prior=[[entry, other, hist_data[:9000].hex()]]))
+        runs.append(dict(args={}, plan=plans[2], prior=[[entry, args, hist_data[:5000].hex()], ["alone_decoder", {}, b"\x5d\x00\x00".hex()]]))
         G.append(dict(entry=entry, cls="group:" + entry, args=args, data=d2[:3000], runs=runs))
+    for entry, a1, a2 in (("easy_encoder", dict(preset=1, check=4), dict(preset=6, check=1)),
+                          ("alone_encoder", dict(lzma=dict(preset=0, dict_size=1 << 16)), dict(lzma=dict(preset=4, dict_size=1 << 20)))):
+        runs = [dict(args={}, plan=plans[0]), dict(args={}, plan=plans[1]), dict(args={}, plan=plans[0], prior=[[entry, a2, hist_data[:9000].hex()]]),
+                dict(args={}, plan=plans[3], prior=[["stream_encoder_mt", dict(threads=2, block_size=4096, preset=0, check=1), hist_data[:9000].hex()]])]
+        G.append(dict(entry=entry, cls="group:" + entry, args=a1, data=d1[:5000], runs=runs))
+    # decoders: a re-initialised handle decodes exactly like a fresh one
+    x1 = GX.encode(d1[:4000], check=4, dict_size=1 << 16, block_size=1500)
+    x2 = GX.encode(d2[:6000], check=1, dict_size=4096)
+    al = GA.build(data=d1[:3000], dict_size=4096)
+    lzf = GZ.build([dict(data=d2[:2000], dict_size=4096)])
+    raw = G2.encode(d1[:5000], dict_size=4096)
+    l2 = [["lzma2", dict(dict_size=4096)]]
+    for entry, a, f, priors in (
+            ("stream_decoder", dict(flags=lz.CONCATENATED), x1, [["stream_decoder", dict(flags=0), x2], ["alone_decoder", {}, al]]),
+            ("stream_decoder_mt", dict(flags=0, threads=2), x1, [["stream_decoder_mt", dict(flags=0, threads=3), x2], ["stream_decoder", dict(flags=0), x2[:40]]]),
+            ("alone_decoder", {}, al, [["alone_decoder", {}, GA.build(data=d2[:5000], dict_size=4096)], ["auto_decoder", dict(flags=0), x2]]),
+            ("lzip_decoder", dict(flags=0), lzf, [["lzip_decoder", dict(flags=0), GZ.build([dict(data=d1[:6000], dict_size=4096)])]]),
+            ("raw_decoder", dict(filters=l2), raw, [["raw_decoder", dict(filters=l2), G2.encode(d2[:7000], dict_size=4096)],
+                                                     ["raw_decoder", dict(filters=l2), G2.encode(d2[:7000], dict_size=4096)[:50]]]),
+            ("auto_decoder", dict(flags=0), al, [["auto_decoder", dict(flags=0), x1], ["auto_decoder", dict(flags=0), lzf]])):
+        runs = [dict(args={}, plan=plans[0]), dict(args={}, plan=plans[1])]
+        for pr in priors:
+            runs.append(dict(args={}, plan=rng.choice(plans[:4]), prior=[[pr[0], pr[1], pr[2].hex()]]))
+        runs.append(dict(args={}, plan=plans[0], prior=[[pr[0], pr[1], pr[2].hex()] for pr in priors]))
+        G.append(dict(entry=entry, cls="group:reinit:" + entry, args=a, data=f, runs=runs))
     return G
 
 
@@ -554,4 +597,136 @@ def mt_big_subjects(rng, quick):
     for s in S:
         s["mtbig"] = True
         s["timeout"] = 60
+    return S
+
+
+# ------------------------------------------------------------------------------------------------ decoder flags
+FLAG_BITS = [lz.TELL_NO_CHECK, lz.TELL_UNSUPPORTED_CHECK, lz.TELL_ANY_CHECK, lz.IGNORE_CHECK, lz.CONCATENATED]
+FLAGGED = ("stream_decoder", "stream_decoder_mt", "auto_decoder", "lzip_decoder")
+
+
+def flag_variants(S, rng, p):
+    """The decoder flags are a dimension of every container decoder: each subject gets (with probability p; always for
+    the auto decoder) a twin with a random combination of LZMA_TELL_* / IGNORE_CHECK / CONCATENATED."""
+    out = []
+    for s in S:
+        if s["entry"] in FLAGGED and (s["entry"] == "auto_decoder" or rng.random() < p):
+            fl = 0
+            for b in FLAG_BITS:
+                if rng.random() < 0.5:
+                    fl |= b
+            if not fl & (lz.TELL_NO_CHECK | lz.TELL_ANY_CHECK | lz.TELL_UNSUPPORTED_CHECK):
+                fl |= rng.choice((lz.TELL_NO_CHECK, lz.TELL_ANY_CHECK, lz.TELL_UNSUPPORTED_CHECK))
+            t = dict(s, args=dict(s["args"], flags=fl), cls=s["cls"] + ":flags=%d" % fl)
+            out.append(t)
+    return out
+
+
+# ------------------------------------------------------------------------------------------------ file info: big Indexes
+def _xz_index_only_stream(records, check=1, padding=0):
+    """A Stream whose Blocks are filler (the file-info decoder never reads them): Stream Header, sum(roundup4(unpadded))
+    zero bytes, a real Index with these Records, Stream Footer, Stream Padding."""
+    fl = GX.stream_flags(check)
+    hdr = GX.HEADER_MAGIC + fl + struct.pack("<I", crc.crc32(fl))
+    blocks = sum((u + 3) & ~3 for u, _ in records)
+    body = b"\x00" + vli.encode(len(records)) + b"".join(vli.encode(u) + vli.encode(c) for u, c in records)
+    body += bytes((-len(body)) % 4)
+    index = body + struct.pack("<I", crc.crc32(body))
+    fb = struct.pack("<I", len(index) // 4 - 1) + fl
+    footer = struct.pack("<I", crc.crc32(fb)) + fb + GX.FOOTER_MAGIC
+    return hdr + bytes(blocks) + index + footer + bytes(padding), 12 + blocks, len(index)
+
+
+def file_info_big_subjects(rng, quick):
+    """Multi-Stream files (three Streams) with Indexes of thousands of Records: the last or the middle Stream's Index is
+    bigger than the decoder's 8 KiB look-back buffer, and the size of what follows the middle Stream is tuned so that the
+    look-back window (file_size - 8192) starts before / inside / at the end of that Index, in its Footer or in Padding."""
+    S = []
+    def recs(n):
+        return [(rng.choice((8, 130, 200)), rng.choice((1, 128, 70000))) for _ in range(n)]
+    s0, _, _ = _xz_index_only_stream(recs(rng.randint(0, 5)), check=4, padding=4 * rng.randint(0, 2))
+    shapes = [(40, 2600), (2600, 3), (5000, 2600), (2600, 40)]
+    if quick:
+        shapes = [shapes[0], rng.choice(shapes[1:])]
+    for n1, n2 in shapes:
+        s1, ioff1, ilen1 = _xz_index_only_stream(recs(n1), check=rng.choice((0, 1, 4, 10)), padding=0)
+        base = len(s0)
+        # where file_size - 8192 should fall, relative to Stream 1 (offsets inside s1) ...
+        targets = [ioff1 - 5, ioff1 + 1, ioff1 + ilen1 // 2, ioff1 + ilen1 - 3, ioff1 + ilen1 + 5, len(s1) + 2]
+        follows = [t + 8192 - len(s1) for t in targets if t + 8192 - len(s1) >= 40]
+        # ... or simply a last Stream with n2 Records (its own Index may exceed the window)
+        tails = [("n2", None)] + [("tuned", f) for f in (follows if not quick else rng.sample(follows, min(2, len(follows))))]
+        for kind, follow in tails:
+            if kind == "n2":
+                s2, _, _ = _xz_index_only_stream(recs(n2), check=1, padding=0)
+                pad = 4 * rng.randint(0, 3)
+            else:
+                # one Record whose Block fills the space: Stream = 12 + roundup4(u) + Index(8..12) + 12
+                u = max(8, (follow - 40) & ~3)
+                s2, _, _ = _xz_index_only_stream([(u, 5)], check=1, padding=0)
+                pad = max(0, (follow - len(s2))) & ~3
+            f = s0 + s1 + bytes(pad) + s2
+            b = [base + ioff1, base + ioff1 + ilen1, base + len(s1), base + len(s1) + pad, len(f) - 12, max(1, len(f) - 8192)]
+            e = sub("file_info_decoder", f, "valid:xz:bigindex:%d+%s" % (n1, n2 if kind == "n2" else "tuned"), {}, b, False, 4096)
+            e["fibig"] = True
+            e["expect_ret"] = ["STREAM_END"]
+            S.append(e)
+    return S
+
+
+# ------------------------------------------------------------------------------------------------ first symbol after a reset
+def first_symbol_subjects(rng, quick):
+    """Adversarial first LZMA symbols at every point where the dictionary is empty: a match / repeated match /
+    short repeat with distance 0, 1, dict_size - 1 at the start of a stream, after an LZMA2 dictionary reset, at the
+    start of a new Block - on a fresh handle and on a handle that has just decoded a valid file of the same kind with a
+    full dictionary.  The format says LZMA_DATA_ERROR (nothing to copy from); glue's decoder is the independent judge."""
+    S = []
+    ds = 4096
+    fill_syms, fill_len, _ = GL.random_symbols(rng, 700, ds, max_out=9000)
+    fill = GL.expand(fill_syms)
+    firsts = []
+    for d0 in (0, 1, ds - 1):
+        firsts += [[('match', d0, rng.choice((2, 5, 273)))]]
+    firsts += [[('rep', 0, 3)], [('rep', 3, 2)], [('shortrep',)]]
+    if quick:
+        firsts = rng.sample(firsts, 3)
+    tailsyms = [('lit', 65), ('lit', 66), ('rep', 0, 4)]
+    def add(entry, data, cls, args, prior, cap=20000):
+        for pr in (None, prior):
+            e = sub(entry, data, cls + (":reused" if pr else ""), args, [1, 2, 5, 6, 13, 14, 18, 19], False, cap)
+            if pr:
+                e["prior"] = [[pr[0], pr[1], pr[2].hex()]]
+            e["expect_ret"] = ["DATA_ERROR"]
+            S.append(e)
+    for fs in firsts:
+        syms = fs + tailsyms
+        name = fs[0][0] + (str(fs[0][1]) if len(fs[0]) > 1 else "")
+        # raw LZMA1 / .lzma / .lz
+        fl = [["lzma1", dict(dict_size=ds)]]
+        add("raw_decoder", GL.encode_symbols(syms + [('eopm',)]), "invalid:raw_lzma1:first_symbol:" + name, dict(filters=fl),
+            ("raw_decoder", dict(filters=fl), GL.encode_symbols(list(fill_syms) + [('eopm',)])))
+        add("alone_decoder", GA.build(symbols=syms, dict_size=ds, usize=None), "invalid:lzma:first_symbol:" + name, {},
+            ("alone_decoder", {}, GA.build(symbols=fill_syms, dict_size=ds, usize=None)))
+        add("lzip_decoder", GZ.build([dict(symbols=syms, dict_size=ds)]), "invalid:lz:first_symbol:" + name, dict(flags=0),
+            ("lzip_decoder", dict(flags=0), GZ.build([dict(symbols=fill_syms, dict_size=ds)])))
+        # LZMA2: first chunk; a later chunk that resets the dictionary; a new Block of an .xz file
+        l2 = [["lzma2", dict(dict_size=ds)]]
+        good_plan = [dict(kind='lzma', reset='all', lc=3, lp=0, pb=2, symbols=list(fill_syms)), dict(kind='end')]
+        good2 = G2.write_chunks(G2.encode_chunks(good_plan)[0])
+        p1 = [dict(kind='lzma', reset='all', lc=3, lp=0, pb=2, symbols=syms), dict(kind='end')]
+        p2 = [dict(kind='lzma', reset='all', lc=3, lp=0, pb=2, symbols=list(fill_syms)),
+              dict(kind='lzma', reset='all', lc=3, lp=0, pb=2, symbols=syms), dict(kind='end')]
+        p3 = [dict(kind='uncompressed', dict_reset=True, data=fill[:3000]),
+              dict(kind='lzma', reset='all', lc=0, lp=2, pb=0, symbols=syms), dict(kind='end')]
+        for tag, pl in (("first_chunk", p1), ("after_dict_reset", p2), ("after_uncompressed+reset", p3)):
+            f = G2.write_chunks(G2.encode_chunks(pl)[0])
+            add("raw_decoder", f, "invalid:raw_lzma2:first_symbol:%s:%s" % (tag, name), dict(filters=l2), ("raw_decoder", dict(filters=l2), good2))
+        bad2 = G2.write_chunks(G2.encode_chunks(p1)[0])
+        x, _ = GX.build([dict(check=1, blocks=[dict(data=good2, uncompressed=fill, dict_size=ds),
+                                               dict(data=bad2, uncompressed=b"", dict_size=ds)])])
+        gx, _ = GX.build([dict(check=1, blocks=[dict(data=good2, uncompressed=fill, dict_size=ds)])])
+        add("stream_decoder", x, "invalid:xz:first_symbol:second_block:" + name, dict(flags=0), ("stream_decoder", dict(flags=0), gx))
+        if not quick or rng.random() < 0.5:
+            add("stream_decoder_mt", x, "invalid:xz:first_symbol:second_block:" + name, dict(flags=0, threads=2),
+                ("stream_decoder_mt", dict(flags=0, threads=2), gx))
     return S
